@@ -30,9 +30,10 @@ def _selectors(f):
                             out[show(strip(a))] += 1
         l = b.get("l")
     for b in f.blocks.values():
-        l = b.get("l")
-        if l and l[0] == "case" and l[2] in VT:
-            out["<switch>"] += 1
+        if b.get("t") == "SwitchStmt" and b.get("c") is not None and b["id"] in f.live:
+            labs = [f.blocks[x].get("l") for x in b["s"] if x is not None]
+            if any(l and l[0] == "case" and l[2] in VT for l in labs):
+                out[show(strip(b["c"]))] += 1
     return out
 
 
@@ -75,7 +76,7 @@ def run(prog, rule="R-VTYPEZERO"):
                       and isinstance(strip(e[1][3]), list) and strip(e[1][3])[0] == "n" and strip(e[1][3])[2] == STAT_ZERO]
         if not zero_sites:
             continue
-        sels = [s for s in _selectors(f) if s != "<switch>"]
+        sels = list(_selectors(f))
         if not sels:
             continue
         nfun += 1
@@ -94,7 +95,13 @@ def run(prog, rule="R-VTYPEZERO"):
                     if v is None:
                         return None
                     return [st] if bool(v) == truth else []
-                Flow(prog, f, [(0,)], xfer, refine).run()
+                def rsw(cond, value, allv, st, sel=sel, val=val):
+                    if show(strip(cond)) == sel:
+                        if value is None:
+                            return [st] if val not in allv else []
+                        return [st] if value == val else []
+                    return [st]
+                Flow(prog, f, [(0,)], xfer, refine, rsw).run()
                 res.obligations += 1
                 res.nontrivial += 1
                 if hit and name != "VFREE":
